@@ -671,6 +671,8 @@ func (ab *dsAddrBook) setAddrs(p peer.ID, addrs []ma.Multiaddr, ttl time.Duratio
 				Expiry: newExp,
 			}
 			entries = append(entries, entry)
+			// the same address may be named again later in this batch
+			addrsMap[string(entry.Addr)] = entry
 			if incomingIsUnconnected {
 				unconnectedCount++
 			}
